@@ -141,6 +141,10 @@ func genWork(rng *rand.Rand, tier, prop string) *WorkPlan {
 		if rng.IntN(8) == 0 {
 			m.StopErr = true
 		}
+		if prop == "C05" && rng.IntN(12) == 0 {
+			// a stop routine that ends in a panic has returned as well
+			m.LifePanic[2] = 1 + rng.IntN(4)
+		}
 		p.Mods = append(p.Mods, m)
 	}
 	p.Late = prop == "C05" && rng.IntN(6) == 0
@@ -181,7 +185,7 @@ func genWork(rng *rand.Rand, tier, prop string) *WorkPlan {
 		}
 		it.Ret = rng.IntN(3)
 		if it.Kind == "svc" && rng.IntN(4) == 0 {
-			it.Ret = 3
+			it.Ret = 3 + rng.IntN(2)
 		}
 		if it.Kind == "svc" && rng.IntN(2) == 0 {
 			it.Backoff = rng.IntN(len(backoffLadder))
@@ -201,6 +205,7 @@ func genWork(rng *rand.Rand, tier, prop string) *WorkPlan {
 		p.Warm = true
 		for i := range p.Mods {
 			p.Mods[i].StopErr = false
+			p.Mods[i].LifePanic = [3]int{}
 		}
 		for i := range p.Items {
 			p.Items[i].AtStart = false
@@ -261,6 +266,8 @@ type workState struct {
 	stopBeginT        map[int]time.Duration
 	stopEndT          map[int]time.Duration
 	offlineSeenT      map[int]time.Duration // first time the module was seen offline after its stop began
+	lifeOp            int                   // counts the harness's calls of ManageModules and Shutdown
+	stopOpOf          map[int]int           // the call during which the module's (last) stop routine was invoked
 	postRan           []string
 	postCtxOK         []string
 	shutdownReturnedT time.Duration
@@ -293,6 +300,7 @@ func (s *workState) lifecycle(i, ph int) func() error {
 			seq := s.evs[len(s.evs)-1].Seq
 			s.stopBeginSeq[i] = seq
 			s.stopBeginT[i] = simrt.Now()
+			s.stopOpOf[i] = s.lifeOp
 			delete(s.offlineSeenT, i)
 			// observation point: a dependency begins stopping => modules depending on it are completely stopped
 			for j, mj := range s.p.Mods {
@@ -404,6 +412,11 @@ func (s *workState) body(k int) func(ctx context.Context) error {
 			if r.Inv == 0 {
 				return modules.ErrRestartNow
 			}
+		case 4:
+			// a service worker that asks for a restart at its first return and whenever it is cancelled
+			if r.Inv == 0 || r.SawCancel {
+				return fmt.Errorf("item %d wants to be restarted: %w", k, modules.ErrRestartNow)
+			}
 		}
 		return nil
 	}
@@ -470,7 +483,7 @@ func (s *workState) launch(k int) {
 func execWork(prop string, p *WorkPlan, rc *simkit.RunCtx) {
 	s := &workState{p: p, rc: rc, prop: prop, inv: make([][3]int, len(p.Mods)), itemInv: make([]int, len(p.Items)),
 		tasks: map[int]*modules.Task{}, stopBeginSeq: map[int]uint64{}, stopBeginT: map[int]time.Duration{}, stopEndT: map[int]time.Duration{},
-		offlineSeenT: map[int]time.Duration{}, requeued: map[int]bool{}}
+		offlineSeenT: map[int]time.Duration{}, requeued: map[int]bool{}, stopOpOf: map[int]int{}}
 	rc.Data = s
 	s.startT, s.stopT = modules.VerifSimTimeouts()
 	modules.SetMaxConcurrentMicroTasks(p.Limit)
@@ -534,6 +547,7 @@ func execWork(prop string, p *WorkPlan, rc *simkit.RunCtx) {
 		}
 		if failing {
 			// the failed module is offline again: another management pass starts it (second invocation succeeds)
+			s.lifeOp++
 			if err := modules.ManageModules(); err == nil {
 				s.startErr = nil
 				rc.Probe("started-after-failed-first-attempt")
@@ -551,6 +565,7 @@ func execWork(prop string, p *WorkPlan, rc *simkit.RunCtx) {
 		for _, m := range s.mods {
 			m.Disable()
 		}
+		s.lifeOp++
 		if err := modules.ManageModules(); err != nil {
 			rc.Fail(prop+".harness", "warm-up stop failed", err.Error())
 			return
@@ -565,6 +580,7 @@ func execWork(prop string, p *WorkPlan, rc *simkit.RunCtx) {
 		for _, m := range s.mods {
 			m.Enable()
 		}
+		s.lifeOp++
 		if err := modules.ManageModules(); err != nil {
 			rc.Fail(prop+".harness", "warm-up restart failed", err.Error())
 			return
@@ -628,6 +644,7 @@ func execWork(prop string, p *WorkPlan, rc *simkit.RunCtx) {
 			s.mods[i].Disable()
 		}
 		before := s.lifePanics[2]
+		s.lifeOp++
 		err := modules.ManageModules()
 		s.mgmtErrs = append(s.mgmtErrs, err)
 		rc.H("Manage err=%v", err != nil)
@@ -645,6 +662,7 @@ func execWork(prop string, p *WorkPlan, rc *simkit.RunCtx) {
 	}
 	before := s.lifePanics[2]
 	s.shutdownCalled = true
+	s.lifeOp++
 	var second chan struct{}
 	if p.Shutdown2 {
 		second = make(chan struct{})
@@ -862,6 +880,11 @@ func checkWork(prop string, p *WorkPlan, rc *simkit.RunCtx) {
 			last := s.stopEndT[i]
 			for _, r := range s.recs {
 				if p.Items[r.Item].Mod == i && r.Ended && r.EndT > last {
+					if p.Items[r.Item].Kind == "svc" && r.Inv > 0 && r.BeginT > bt {
+						// a service worker is not restarted once its module is being stopped (a restart in the very
+						// instant of the stop aside): a later invocation is not work the stop has to wait for
+						continue
+					}
 					last = r.EndT
 				}
 			}
@@ -877,6 +900,55 @@ func checkWork(prop string, p *WorkPlan, rc *simkit.RunCtx) {
 				rc.Fail("C05.not-prompt", "module went offline only long after its stop routine and all its work had returned",
 					fmt.Sprintf("%s: last return at %v, offline at %v", modName(i), last, off))
 				return
+			}
+		}
+		// modules a stopped module depends on begin stopping promptly as well: once the last of the dependants that
+		// were stopped by the same call is offline, nothing else (an unrelated module that takes its time) is waited for
+		for d := range p.Mods {
+			bt, ok := s.stopBeginT[d]
+			if !ok {
+				continue
+			}
+			last, any, open := time.Duration(0), false, false
+			for x, mx := range p.Mods {
+				for _, dd := range mx.Deps {
+					if dd != d {
+						continue
+					}
+					if _, stopped := s.stopBeginT[x]; !stopped || s.stopOpOf[x] != s.stopOpOf[d] {
+						continue
+					}
+					// the dependant is through when its stop routine and its work have returned and, unless its stop
+					// failed, it has been reported offline
+					done, ended := s.stopEndT[x]
+					if !ended || done < s.stopBeginT[x] {
+						open = true
+						continue
+					}
+					for _, r := range s.recs {
+						if p.Items[r.Item].Mod == x && r.Ended && r.EndT > done {
+							done = r.EndT
+						}
+					}
+					if off, seen := s.offlineSeenT[x]; seen && off > done {
+						done = off
+					}
+					any = true
+					if done > last {
+						last = done
+					}
+				}
+			}
+			if open {
+				continue
+			}
+			if any && bt-last >= s.stopT/2 {
+				rc.Fail("C05.dependency-stop-late", "a dependency began stopping only long after the last module depending on it was offline",
+					fmt.Sprintf("%s: last dependant through at %v, stop routine invoked at %v", modName(d), last, bt))
+				return
+			}
+			if any {
+				rc.Probe("dependency-stop-judged")
 			}
 		}
 		rc.Probe("all-timely")
